@@ -28,12 +28,8 @@ func H_C20_Kaitai() {
 	n := vrt.Range("n", 0, 2)
 	recs := make([][]byte, n)
 	for i := range recs {
-		// nil | 0..2 symbolic bytes | a concrete record whose length needs a 2-byte [3-byte] varint
-		kinds := 3
-		if vrt.Thorough() {
-			kinds = 4
-		}
-		switch vrt.Choose(vrt.K("r", i, "kind"), kinds) {
+		// nil | 0..2 symbolic bytes | a concrete record whose length needs a 2-byte / 3-byte varint
+		switch vrt.Choose(vrt.K("r", i, "kind"), 4) {
 		case 0:
 			recs[i] = vrt.BytesOrNil(vrt.K("r", i), 2)
 		case 1:
